@@ -43,13 +43,15 @@ FrameShows(c, f, m) == \E h \in Heads(c, m) : IsPrefix(h, f) /\ TailOK(c, SubSeq
 
 FrameOKFor(c, ev, m) == \A k \in 1..Len(ev.frames) : FrameShows(c, ev.frames[k], m)
 ThrottleOKFor(c, ev) == (ev.op = "advance" /\ ev.frames # <<>> /\ ev.gap >= 0) => ev.gap >= c.interval
-LineOKFor(c, ev, t) == (ev.frames # <<>> /\ c.mode # "quiet" /\ RTrim(ev.frames[Len(ev.frames)]) # <<>>) =>
+\* (a frame wider than the terminal wraps over several rows: the row-wise clauses claim nothing then, FrameOK still does)
+LineOKFor(c, ev, t) == (ev.frames # <<>> /\ c.mode # "quiet" /\ RTrim(ev.frames[Len(ev.frames)]) # <<>>
+                        /\ Len(ev.frames[Len(ev.frames)]) <= c.w) =>
                           LET s == Screen(t) IN s # <<>> /\ s[Len(s)] = RTrim(ev.frames[Len(ev.frames)])
 \* start(), set_message() and finish() show the message they were given: after the call the last non-blank row is a frame
 \* with the message in force, and it was drawn by this call (it is not above the row the cursor was on before the call) -
 \* also when the same indicator object is started again after a finish()
 CurrentShownFor(c, ev, before, after, m) ==
-  (c.mode # "quiet" /\ ev.exc = "" /\ ev.op \in {"start", "set", "finish"} /\ m # <<>>) =>   \* (an empty message leaves nothing to look for on the screen; FrameOK covers it)
+  (c.mode # "quiet" /\ ev.exc = "" /\ ev.op \in {"start", "set", "finish"} /\ m # <<>> /\ Len(m) + 3 <= c.w) =>   \* (an empty message leaves nothing to look for on the screen; FrameOK covers it)
      LET s == Screen(after) IN s # <<>> /\ Len(s) >= before.r /\ FrameShows(c, s[Len(s)], m)
 QuietOKFor(c, ev) == c.mode = "quiet" => (ev.ops = <<>> /\ ev.frames = <<>>)
 
